@@ -79,7 +79,7 @@ def main():
             rows.append(row)
         finally:
             shutil.rmtree(tmp, ignore_errors=True)
-    if not only:
+    if not only or "--out" in sys.argv:
         json.dump(rows, open(a.out, "w"), indent=1)
     return 0
 
